@@ -747,6 +747,20 @@ def run_shard(sh):
             if r['sub_error'] or not got or got.get('afi_safi') != afs or got.get('withdraw') not in ([], None, '', "b''"):
                 bad('reference-decode-differs', ['variant:end-of-rib', 'family:%d/%d' % tuple(afs)],
                     'End-of-RIB marker of family %s decoded to %s (sub_error %s)' % (afs, json.dumps(got)[:200], r['sub_error']), rep_)
+    # the IPv4 unicast End-of-RIB marker is the UPDATE that carries nothing at all (RFC 4724 2): it decodes to empty lists and an
+    # empty attribute dictionary like any other UPDATE without attributes, with no error
+    for asn4 in (True, False) if sh['part'] < 4 else []:
+        body = b'\x00\x00\x00\x00'
+        neor += 1
+        res['evaluations'] += 1
+        try:
+            r = Update.parse(None, body, asn4)
+            got = (r.get('sub_error'), gen.norm(r.get('attr')), gen.norm(r.get('nlri')), gen.norm(r.get('withdraw')))
+        except Exception as e:
+            got = ('raised %r' % (e,),)
+        if got != (None, {}, [], []):
+            bad('reference-decode-differs', ['variant:end-of-rib', 'family:ipv4-empty-update'],
+                'the empty UPDATE (IPv4 End-of-RIB) decoded to (sub_error, attr, nlri, withdraw) = %s' % (json.dumps(got)[:200],), dict(body=body.hex(), asn4=asn4))
     vcount['end_of_rib_markers'] = neor
     # ------------------------------------------------------------ error half
     nerr = 0
